@@ -206,6 +206,7 @@ pub fn c15_cell(ctx: &Ctx, tag: &str, st: &StateSpec, faults: Vec<Fault>, subset
             .map(|f| match f {
                 Fault::Kill { point, k } => format!("kill@{point}#{k}"),
                 Fault::Fail { point, k, interrupted } => format!("{}@{point}#{k}", if *interrupted { "eintr" } else { "fail" }),
+                Fault::FailKind { point, k, error: kind } => format!("fail({kind})@{point}#{k}"),
                 Fault::ShortWrites { max } => format!("short-writes({max})"),
                 Fault::Syscall { call, when, errno } => format!("sys-{}@{call}#{when}", errno.clone().unwrap_or_else(|| "kill".into())),
             })
@@ -305,6 +306,8 @@ pub fn k_samples(ctx: &Ctx, point: &str, count: usize, thorough: bool) -> Vec<us
     ks
 }
 
+pub const ERROR_KINDS: [&str; 10] = ["permission_denied", "not_found", "already_exists", "would_block", "invalid_data", "unexpected_eof", "out_of_memory", "timed_out", "write_zero", "unsupported"];
+
 fn random_fault(ctx: &Ctx, rng: &mut Rng) -> Vec<Fault> {
     let points = all_points(ctx);
     let (point, count) = if rng.chance(1, 2) {
@@ -318,7 +321,8 @@ fn random_fault(ctx: &Ctx, rng: &mut Rng) -> Vec<Fault> {
     let mut out = Vec::new();
     match rng.below(20) {
         0..=10 => out.push(Fault::Kill { point: point.to_string(), k }),
-        11..=16 => out.push(Fault::Fail { point: point.to_string(), k, interrupted: false }),
+        11..=13 => out.push(Fault::Fail { point: point.to_string(), k, interrupted: false }),
+        14..=16 => out.push(Fault::FailKind { point: point.to_string(), k, error: rng.pick(&ERROR_KINDS).to_string() }),
         17 => out.push(Fault::Fail { point: "meta.write".into(), k: rng.below(17), interrupted: true }),
         18 => out.push(Fault::ShortWrites { max: rng.range(1, 5) }),
         _ => {
@@ -479,18 +483,25 @@ pub fn c15_random_mixed(ctx: &Ctx, rng: &mut Rng, seed: u64, quick: bool, strace
 
 /// System calls swept by the ptrace injector: (call, highest `when` to try, errno for the error flavour).
 pub fn syscall_sites() -> Vec<(&'static str, usize, &'static str)> {
+    syscall_errnos().into_iter().map(|(c, m, e)| (c, m, e[0])).collect()
+}
+
+/// The same with every errno tried per call (the first one is the one the quick tier uses most).
+pub fn syscall_errnos() -> Vec<(&'static str, usize, Vec<&'static str>)> {
     vec![
-        ("openat", 70, "EACCES"),
-        ("write", 90, "ENOSPC"),
-        ("fdatasync", 26, "EIO"),
-        ("fsync", 6, "EIO"),
-        ("renameat", 14, "EIO"),
-        ("rename", 4, "EIO"),
-        ("mkdir", 6, "ENOSPC"),
-        ("unlink", 24, "EIO"),
-        ("unlinkat", 24, "EIO"),
-        ("flock", 8, "EAGAIN"),
-        ("mmap", 70, "ENOMEM"),
+        ("openat", 70, vec!["EACCES", "ENOSPC", "EMFILE", "EROFS", "ENOENT"]),
+        ("write", 90, vec!["ENOSPC", "EIO", "EDQUOT", "EFBIG"]),
+        ("fdatasync", 26, vec!["EIO", "ENOSPC"]),
+        ("fsync", 6, vec!["EIO", "ENOSPC"]),
+        ("renameat", 14, vec!["EIO", "EACCES", "EXDEV", "ENOSPC"]),
+        ("rename", 4, vec!["EIO", "EACCES"]),
+        ("mkdir", 6, vec!["ENOSPC", "EACCES", "EROFS", "EEXIST"]),
+        ("unlink", 24, vec!["EIO", "EACCES", "EPERM", "EBUSY"]),
+        ("unlinkat", 24, vec!["EIO", "EACCES", "EPERM", "EBUSY", "ENOTEMPTY"]),
+        ("rmdir", 6, vec!["EACCES", "EBUSY", "ENOTEMPTY"]),
+        ("flock", 8, vec!["EAGAIN", "ENOLCK"]),
+        ("mmap", 70, vec!["ENOMEM"]),
+        ("ftruncate", 6, vec!["EIO", "EFBIG"]),
     ]
 }
 
@@ -516,6 +527,7 @@ pub fn fault_label(f: &Fault) -> String {
     match f {
         Fault::Kill { point, k } => format!("kill@{point}#{k}"),
         Fault::Fail { point, k, interrupted } => format!("{}@{point}#{k}", if *interrupted { "eintr" } else { "fail" }),
+        Fault::FailKind { point, k, error: kind } => format!("fail({kind})@{point}#{k}"),
         Fault::ShortWrites { max } => format!("short-writes({max})"),
         Fault::Syscall { call, when, errno } => format!("sys-{}@{call}#{when}", errno.clone().unwrap_or_else(|| "kill".into())),
     }
@@ -714,6 +726,22 @@ pub fn c16_state(ctx: &Ctx, tag: &str, st: &StateSpec, perms: Perms, seed: u64) 
         Step::Start { session: ctx.session(1, vec![], vec![Op::Open { slot: 0, mode: Mode::Disk, plan: Plan::default() }, own(0)]) },
     ];
     History { property: "C16".into(), seed, label: format!("started from {tag}, then reopened"), steps }
+}
+
+/// C16 on a handle that stays in use while another open in the same process recovers the directory.
+pub fn c16_beside(ctx: &Ctx, rng: &mut Rng, seed: u64) -> History {
+    let n = ctx.shipped.docs();
+    let only: Vec<usize> = (0..60).map(|_| rng.below(n)).collect();
+    let hold_point = rng.pick(&["index.ready", "rebuild.start", "rebuild.cleared", "rebuild.before_commit"]).to_string();
+    let ops = vec![
+        Op::Open { slot: 0, mode: Mode::Disk, plan: Plan::default() },
+        Op::OwnWords { slot: 0, perms: Perms::Identity, only: Some(only.clone()), again: None },
+        Op::OpenBeside { slot: 1, watch_slot: 0, hold_point: hold_point.clone(), hold_ms: 1700, ask_after_ms: 1200, only: Some(only.clone()) },
+        Op::OwnWords { slot: 0, perms: Perms::Identity, only: Some(only.clone()), again: None },
+        Op::OwnWords { slot: 1, perms: Perms::Identity, only: Some(only), again: None },
+    ];
+    let steps = vec![Step::Fabricate { state: state(true, MetaSpec::Current, IndexSpec::Complete) }, Step::Start { session: ctx.session(1, vec![], ops) }];
+    History { property: "C16".into(), seed, label: format!("a handle in use while another open recreates the index (held at {hold_point})"), steps }
 }
 
 /// C16 with caller threads: two to four threads ask for the own words of a sample of facts on one
@@ -1156,7 +1184,7 @@ pub fn c19_query(pool: &PhrasePool, rng: &mut Rng) -> String {
             _ => format!("1 / {}", rng.range(2, 13)),
         }
     };
-    match rng.below(34) {
+    match rng.below(36) {
         20 | 21 => format!("{} {}", *rng.pick(&["1", "0.5", "0.25", "0.125", "0.2", "2", "1.0", "10", "0.1", "1.5", "0.01", "3"]), plural_unit(rng)),
         22 => format!("{} {} to {}", *rng.pick(&["1", "10", "100", "5", "0.5"]), plural_unit(rng), plural_unit(rng)),
         23 => format!("({})({})", small(rng), small(rng)),
@@ -1194,6 +1222,33 @@ pub fn c19_query(pool: &PhrasePool, rng: &mut Rng) -> String {
                 t = format!("{t} {op} {}{}", rng.range(1, 9), base(rng));
             }
             t
+        }
+        34 | 35 => {
+            // evaluation errors with long messages that echo non-ASCII text (compound units with ⋅ and
+            // ², the degree sign), 60..170 bytes long, between other results; blank-free, so that the
+            // grammar keeps the parts apart
+            if rng.chance(1, 2) {
+                // "illegal operation: <long unit> + <long unit>"
+                let mut left = vec!["kg", "cd", "m", "s", "A", "K", "mol", "B"];
+                let mut right = vec!["km^2", "kcd^2", "ms^3", "mA^2", "mK^2", "mmol^2", "MB^2", "μs^2"];
+                rng.shuffle(&mut left);
+                rng.shuffle(&mut right);
+                let a = left[..rng.range(2, 8)].join("*");
+                let b = right[..rng.range(2, 7)].join("*");
+                if rng.chance(1, 2) {
+                    format!("{}%1{a}+(1{b}){}%", rng.range(1, 9), rng.range(1, 9))
+                } else {
+                    format!("({}m)(1{a}+1{b})({}m)", rng.range(1, 9), rng.range(1, 9))
+                }
+            } else {
+                // "unit `<name>` is not a valid unit" with a degree sign somewhere around byte 100
+                let len = rng.range(50, 140);
+                let mut name = String::from("xq");
+                while name.len() < len {
+                    name.push(*rng.pick(&['x', 'q', 'z', 'w', '°', 'a', 'j', '°']));
+                }
+                format!("(3{name})({}m)", rng.range(1, 9))
+            }
         }
         31 => format!("{}%({}){}%", rng.range(1, 99), small(rng), rng.range(1, 99)),
         32 => format!("round({}){}%{}%", small(rng), rng.range(1, 99), rng.range(1, 99)),
